@@ -8,6 +8,7 @@ SOME sequential order of the two threads' operations."""
 import contextlib
 import io
 import itertools
+import json
 import threading
 
 from . import common, pysched
@@ -178,8 +179,15 @@ def _check(r, prefix):
     nums = [t[0] for t in table]
     if sorted(mru) != sorted(nums) or len(set(mru)) != len(mru):
         V("mru-is-permutation-of-jobs", "the MRU order is a permutation of exactly the live jobs", {"mru": mru, "jobs": nums}, "same set")
-    elif common.jdump(v["final"]) not in _sequential_outcomes(_PROG):
-        V("final-table-not-sequentially-explainable", "the final table equals the result of some sequential order of the operations", v["final"], sorted(_sequential_outcomes(_PROG))[:3])
+    else:
+        # The job table (numbers, status, bg flag) must be that of SOME sequential order of the whole
+        # operations.  The MRU *order* is only required to be a permutation (checked above): `bg` clears
+        # the job's bg flag while it resumes it and sets it afterwards, so a concurrent get_next_task()
+        # of the main thread may legitimately move that job to the front in between - the statement
+        # does not promise a linearizable MRU order across threads.
+        tables = {common.jdump(json.loads(o)[0]) for o in _sequential_outcomes(_PROG)}
+        if common.jdump([list(t) for t in table]) not in tables:
+            V("final-table-not-sequentially-explainable", "the final job table equals the result of some sequential order of the operations", v["final"], sorted(tables)[:3])
     return viols
 
 
